@@ -164,12 +164,12 @@ variable (ns : NsMap) (xvs : XVars)
     `(fid', p')` for the children, reports a match iff the last fragment is completed, and the
     node set still designated is unchanged. -/
 theorem icLoop_spec (frags : List Frag) (hok : FragsOk frags) (c : LNode) (hcl : c.node.clean = true) :
-    ∀ (fuel fid p : Nat) (rw : List Event) (frag : Frag), frags[fid]? = some frag → 1 ≤ fid →
+    ∀ (fuel fid p : Nat) (rw : List Event) (frag : Frag), frags[fid]? = some frag → frag.tests ≠ [] →
       frags.length - fid < fuel →
       IsMax (Fof frag.tests) frag.tests.length (textOf ns rw) rw.length p →
       ∃ (fid' p' L : Nat) (rw' : List Event) (frag' : Frag),
         icLoop frags (nodeEvent c.node) ns fuel fid p = (fid', p', L, none) ∧
-        frags[fid']? = some frag' ∧ 1 ≤ fid' ∧
+        frags[fid']? = some frag' ∧ frag'.tests ≠ [] ∧
         IsMax (Fof frag'.tests) frag'.tests.length (textOf ns rw') rw'.length p' ∧
         ∀ t : LNode, SemIc ns xvs frag.tests (restPath frags (fid + 1)) rw c t ↔
           (((fid' + 1 == frags.length && p' == L) = true ∧ (c.loc == t.loc) = true) ∨
@@ -178,12 +178,10 @@ theorem icLoop_spec (frags : List Frag) (hok : FragsOk frags) (c : LNode) (hcl :
   induction fuel with
   | zero => intro fid p rw frag _ _ h; omega
   | succ fuel ih =>
-    intro fid p rw frag hfrag h1 hfuel hmax
+    intro fid p rw frag hfrag hne hfuel hmax
+    have h1 := hne
     have hmem : frag ∈ frags := List.mem_of_getElem? hfrag
     have hflt : fid < frags.length := (List.getElem?_eq_some_iff.mp hfrag).1
-    have hne : frag.tests ≠ [] := by
-      obtain ⟨j, rfl⟩ : ∃ j, fid = j + 1 := ⟨fid - 1, by omega⟩
-      exact hok.tail j frag hfrag
     have hn : 0 < frag.tests.length := by cases hft : frag.tests <;> simp_all
     have hs : Simple (Fof frag.tests) frag.tests.length := simple_of_mem _ (hok.simple frag hmem)
     have hmax' := kmpStep_max ns frag hne hs (hok.pi frag hmem) rw p hmax (nodeEvent c.node)
@@ -228,13 +226,13 @@ theorem icLoop_spec (frags : List Frag) (hok : FragsOk frags) (c : LNode) (hcl :
         by_cases hsb : nxt.selfBeginning = true
         · simp only [hsb, Bool.not_true, Bool.false_eq_true, if_false]
           obtain ⟨fid', p', L, rw', frag', e1, e2, e3, e4, e5⟩ :=
-            ih (fid + 1) 0 [] nxt hnxt (by omega) (by omega) (isMax_nil ns nxt.tests)
+            ih (fid + 1) 0 [] nxt hnxt hnne (by omega) (isMax_nil ns nxt.tests)
           refine ⟨fid', p', L, rw', frag', e1, e2, e3, e4, fun t => ?_⟩
           rw [hdom t, ← e5 t, semIc_nil, hR]
           simp [fragSteps, hsb]
         · have hsb' : nxt.selfBeginning = false := by simpa using hsb
           simp only [hsb', Bool.not_false, if_true]
-          refine ⟨fid + 1, 0, _, [], nxt, rfl, hnxt, by omega, isMax_nil ns nxt.tests, fun t => ?_⟩
+          refine ⟨fid + 1, 0, _, [], nxt, rfl, hnxt, hnne, isMax_nil ns nxt.tests, fun t => ?_⟩
           rw [hdom t, hR]
           have hm0 : (fid + 1 + 1 == frags.length && 0 == frag.tests.length) = false := by
             have : (0 == frag.tests.length) = false := by simp; omega
@@ -308,6 +306,19 @@ theorem pStep_ic_root (frags : List Frag) (fid : Nat) (e : Event)
   have hd : decide (fid > 0) = true := by simpa using hpos
   simp only [pStep, he, hm, hsk, hsb, hd, Bool.false_eq_true, if_false, if_true, Bool.not_true, Bool.false_and,
     Bool.false_or, icResult, icOut]
+  generalize icLoop frags e ns (frags.length + 1) fid 0 = r
+  obtain ⟨r1, r2, r3, r4⟩ := r
+  cases r4 <;> by_cases h : (r1 + 1 == frags.length && r2 == r3) = true <;> simp [h]
+
+/-- the first event in pattern mode (`ignore_context = True`): the first non-empty fragment is
+    matched context-free from the root on -/
+theorem pStep_ic_root_pat (frags : List Frag) (fid : Nat) (e : Event)
+    (he : e.isEnd = false) (hm : e.isNsOrCdata = false)
+    (hsk : skipEmpty frags (frags.length + 1) 0 = fid) :
+    pStep (some frags) true ns [] e =
+      ((if e.isStart then [(icOut ns frags e fid 0).1] else []), (icOut ns frags e fid 0).2) := by
+  simp only [pStep, he, hm, hsk, Bool.false_eq_true, if_false, if_true, Bool.not_true, Bool.false_and,
+    Bool.true_or, Bool.and_false, icResult, icOut]
   generalize icLoop frags e ns (frags.length + 1) fid 0 = r
   obtain ⟨r1, r2, r3, r4⟩ := r
   cases r4 <;> by_cases h : (r1 + 1 == frags.length && r2 == r3) = true <;> simp [h]
@@ -399,7 +410,7 @@ def EOk (E : PEntry) (rw : List Event) : Prop :=
   | ⟨none, ic⟩ => ic = false
   | ⟨some (fid, p), false⟩ => fid = 0 ∧ ∃ f0, frags[0]? = some f0 ∧ p < f0.tests.length
   | ⟨some (fid, p), true⟩ =>
-      1 ≤ fid ∧ ∃ frag, frags[fid]? = some frag ∧
+      ∃ frag, frags[fid]? = some frag ∧ frag.tests ≠ [] ∧
         IsMax (Fof frag.tests) frag.tests.length (textOf ns rw) rw.length p
 
 /-- the nodes at or below `c` that an entry still designates -/
@@ -422,7 +433,7 @@ theorem nodeEvent_ok (n : Node) (hcl : n.clean = true) :
 
 /-- a context-ignoring entry at one node -/
 theorem icOut_sem (hok : FragsOk frags) (c : LNode) (hcl : c.node.clean = true) (fid p : Nat) (rw : List Event)
-    (frag : Frag) (hfrag : frags[fid]? = some frag) (h1 : 1 ≤ fid)
+    (frag : Frag) (hfrag : frags[fid]? = some frag) (h1 : frag.tests ≠ [])
     (hmax : IsMax (Fof frag.tests) frag.tests.length (textOf ns rw) rw.length p) :
     ∃ (rw' : List Event) (m : Bool), EOk ns frags (icOut ns frags (nodeEvent c.node) fid p).1 rw' ∧
       (icOut ns frags (nodeEvent c.node) fid p).2 = (if m then .bool true else .none) ∧
@@ -433,7 +444,7 @@ theorem icOut_sem (hok : FragsOk frags) (c : LNode) (hcl : c.node.clean = true) 
     icLoop_spec ns xvs frags hok c hcl (frags.length + 1) fid p rw frag hfrag h1 (by omega) hmax
   refine ⟨rw', (fid' + 1 == frags.length && p' == L), ?_, ?_, fun t => ?_⟩
   · simp only [icOut, e1, EOk]
-    exact ⟨e3, frag', e2, e4⟩
+    exact ⟨frag', e2, e3, e4⟩
   · simp only [icOut, e1, icResult]
   · rw [e5 t]
     simp only [icOut, e1, ESem]
@@ -483,13 +494,13 @@ theorem boundOut_sem (hok : FragsOk frags) (c : LNode) (hcl : c.node.clean = tru
           | cons g G => exact ⟨g, G, rfl⟩
         by_cases hsb : nxt.selfBeginning = true
         · simp only [hnxt, Option.map_some, Option.getD_some, hsb, Bool.not_true, Bool.false_eq_true, if_false]
-          obtain ⟨rw', m, o1, o2, o3⟩ := icOut_sem ns xvs frags hok c hcl 1 0 [] nxt hnxt (Nat.le_refl _) (isMax_nil ns nxt.tests)
+          obtain ⟨rw', m, o1, o2, o3⟩ := icOut_sem ns xvs frags hok c hcl 1 0 [] nxt hnxt hnne (isMax_nil ns nxt.tests)
           refine ⟨rw', m, o1, o2, fun t => ?_⟩
           rw [← o3 t, semIc_nil, hunf t, hR]
           simp [ht, hp1', fragSteps, hsb]
         · have hsb' : nxt.selfBeginning = false := by simpa using hsb
           simp only [hnxt, Option.map_some, Option.getD_some, hsb', Bool.not_false, if_true]
-          refine ⟨[], false, ⟨Nat.le_refl _, nxt, hnxt, isMax_nil ns nxt.tests⟩, rfl, fun t => ?_⟩
+          refine ⟨[], false, ⟨nxt, hnxt, hnne, isMax_nil ns nxt.tests⟩, rfl, fun t => ?_⟩
           rw [hunf t, hR]
           simp only [ht, hp1', true_and, Nat.lt_irrefl, false_and, or_false, fragSteps, hsb', Bool.false_eq_true,
             if_false, hgG, ESem]
@@ -515,10 +526,10 @@ theorem boundOut_sem (hok : FragsOk frags) (c : LNode) (hcl : c.node.clean = tru
 /-- **one event**: the matcher's step on a valid entry gives a valid entry for the children,
     and the entry designates: this node iff a match is reported, plus whatever the new entry
     designates below the children -/
-theorem visit (hok : FragsOk frags) (E : PEntry) (rw : List Event) (hE : EOk ns frags E rw) (c : LNode)
+theorem visit (hok : FragsOk frags) (ig : Bool) (E : PEntry) (rw : List Event) (hE : EOk ns frags E rw) (c : LNode)
     (hcl : c.node.clean = true) (rest : PState) :
     ∃ (E' : PEntry) (rw' : List Event) (m : Bool), EOk ns frags E' rw' ∧
-      pStep (some frags) false ns (E :: rest) (nodeEvent c.node)
+      pStep (some frags) ig ns (E :: rest) (nodeEvent c.node)
         = ((if (nodeEvent c.node).isStart then E' :: E :: rest else E :: rest), if m then .bool true else .none) ∧
       ∀ t : LNode, ESem ns xvs frags E rw c t ↔
         ((m = true ∧ (c.loc == t.loc) = true) ∨ ∃ k ∈ childrenOf c, ESem ns xvs frags E' rw' k t) := by
@@ -528,7 +539,8 @@ theorem visit (hok : FragsOk frags) (E : PEntry) (rw : List Event) (hE : EOk ns 
   | none =>
     simp only [EOk] at hE
     subst hE
-    refine ⟨⟨none, false⟩, [], false, rfl, pStep_dead ns frags _ rest he hm, fun t => ?_⟩
+    refine ⟨⟨none, false⟩, [], false, rfl, ?_, fun t => ?_⟩
+    · simp only [pStep, he, hm, Bool.false_eq_true, if_false]
     simp [ESem]
   | some fpv =>
     obtain ⟨fid, p⟩ := fpv
@@ -537,17 +549,17 @@ theorem visit (hok : FragsOk frags) (E : PEntry) (rw : List Event) (hE : EOk ns 
       obtain ⟨rfl, f0, h0, hp⟩ := hE
       obtain ⟨rw', m, o1, o2, o3⟩ := boundOut_sem ns xvs frags hok c hcl f0 h0 p hp
       refine ⟨_, rw', m, o1, ?_, fun t => ?_⟩
-      · rw [pStep_bound ns frags false f0 h0 p hp rest _ he hm, o2]
+      · rw [pStep_bound ns frags ig f0 h0 p hp rest _ he hm, o2]
       · rw [← o3 t]
         simp only [ESem]
         constructor
         · rintro ⟨f, hf, h⟩; rw [h0] at hf; cases hf; exact h
         · intro h; exact ⟨f0, h0, h⟩
     | true =>
-      obtain ⟨h1, frag, hfrag, hmax⟩ := hE
+      obtain ⟨frag, hfrag, h1, hmax⟩ := hE
       obtain ⟨rw', m, o1, o2, o3⟩ := icOut_sem ns xvs frags hok c hcl fid p rw frag hfrag h1 hmax
       refine ⟨_, rw', m, o1, ?_, fun t => ?_⟩
-      · rw [pStep_ic ns frags false fid p rest _ he hm, o2]
+      · rw [pStep_ic ns frags ig fid p rest _ he hm, o2]
       · rw [← o3 t]
         simp only [ESem]
         constructor
@@ -555,17 +567,18 @@ theorem visit (hok : FragsOk frags) (E : PEntry) (rw : List Event) (hE : EOk ns 
         · intro h; exact ⟨frag, hfrag, h⟩
 
 /-- the whole element tree, once the first event is dealt with -/
-theorem rootRun (hok : FragsOk frags) (tag : QName) (attrs : AttrList) (kids : List Node) (hcl : cleanList kids = true)
+theorem rootRun (hok : FragsOk frags) (ig : Bool) (tag : QName) (attrs : AttrList) (kids : List Node)
+    (hcl : cleanList kids = true)
     (E' : PEntry) (rw' : List Event) (m : Bool) (hE' : EOk ns frags E' rw')
-    (hroot : pStep (some frags) false ns [] (.start tag attrs) = ([E'], if m then .bool true else .none)) :
-    okVals (runOne (pStep (some frags) false ns) [] (Node.elem tag attrs kids).flatten).1
+    (hroot : pStep (some frags) ig ns [] (.start tag attrs) = ([E'], if m then .bool true else .none)) :
+    okVals (runOne (pStep (some frags) ig ns) [] (Node.elem tag attrs kids).flatten).1
         (eventLocs (.elem tag attrs kids) []) ∧
-    ∀ t : LNode, selB (runOne (pStep (some frags) false ns) [] (Node.elem tag attrs kids).flatten).1
+    ∀ t : LNode, selB (runOne (pStep (some frags) ig ns) [] (Node.elem tag attrs kids).flatten).1
         (eventLocs (.elem tag attrs kids) []) t.loc = true ↔
       ((m = true ∧ (([] : List Nat) == t.loc) = true) ∨ ∃ k ∈ kidsAt kids [] 0, ESem ns xvs frags E' rw' k t) := by
-  have hk := stackTreeList (pStep (some frags) false ns) (EOk ns frags) (ESem ns xvs frags)
-    (fun st tg => pStep_end ns frags false st tg)
-    (fun E x hE c hc rest => visit ns xvs frags hok E x hE c hc rest) kids hcl [] 0 E' rw' [] hE'
+  have hk := stackTreeList (pStep (some frags) ig ns) (EOk ns frags) (ESem ns xvs frags)
+    (fun st tg => pStep_end ns frags ig st tg)
+    (fun E x hE c hc rest => visit ns xvs frags hok ig E x hE c hc rest) kids hcl [] 0 E' rw' [] hE'
   simp only [Node.flatten, eventLocs, runOne_cons, runOne_append]
   rw [hroot]
   simp only []
@@ -639,12 +652,12 @@ theorem simple_marks (hok : FragsOk frags) (tag : QName) (attrs : AttrList) (kid
     rw [hhp, List.nil_append, hR]
     by_cases hsb : f1.selfBeginning = true
     · obtain ⟨rw', m, o1, o2, o3⟩ :=
-        icOut_sem ns xvs frags hok ⟨[], .elem tag attrs kids⟩ hclr 1 0 [] f1 hf1 (Nat.le_refl _) (isMax_nil ns f1.tests)
+        icOut_sem ns xvs frags hok ⟨[], .elem tag attrs kids⟩ hclr 1 0 [] f1 hf1 hne1 (isMax_nil ns f1.tests)
       have hroot := pStep_ic_root ns frags 1 (.start tag attrs) rfl rfl hsk (by omega) (by simp [hf1, hsb])
       simp only [nodeEvent] at o1 o2 o3
       rw [o2] at hroot
       simp only [Event.isStart, if_true] at hroot
-      obtain ⟨r1, r2⟩ := rootRun ns xvs frags hok tag attrs kids hcl _ rw' m o1 hroot
+      obtain ⟨r1, r2⟩ := rootRun ns xvs frags hok false tag attrs kids hcl _ rw' m o1 hroot
       refine ⟨r1, fun t => ?_⟩
       rw [r2 t, ← hkids, ← o3 t, semIc_nil]
       simp [fragSteps, hsb]
@@ -652,8 +665,8 @@ theorem simple_marks (hok : FragsOk frags) (tag : QName) (attrs : AttrList) (kid
       have hroot := pStep_skip_root ns frags 1 (.start tag attrs) rfl rfl hsk (by simp [hf1, hsb'])
       have hd : decide (1 > 0) = true := by decide
       rw [hd] at hroot
-      obtain ⟨r1, r2⟩ := rootRun ns xvs frags hok tag attrs kids hcl ⟨some (1, 0), true⟩ [] false
-        ⟨Nat.le_refl _, f1, hf1, isMax_nil ns f1.tests⟩ hroot
+      obtain ⟨r1, r2⟩ := rootRun ns xvs frags hok false tag attrs kids hcl ⟨some (1, 0), true⟩ [] false
+        ⟨f1, hf1, hne1, isMax_nil ns f1.tests⟩ hroot
       refine ⟨r1, fun t => ?_⟩
       rw [r2 t]
       simp only [fragSteps, hsb', Bool.false_eq_true, if_false, hgG, false_and, false_or, ESem]
@@ -671,7 +684,7 @@ theorem simple_marks (hok : FragsOk frags) (tag : QName) (attrs : AttrList) (kid
       simp only [nodeEvent] at o1 o2 o3
       rw [o2] at hroot
       simp only [Event.isStart, if_true] at hroot
-      obtain ⟨r1, r2⟩ := rootRun ns xvs frags hok tag attrs kids hcl _ rw' m o1 hroot
+      obtain ⟨r1, r2⟩ := rootRun ns xvs frags hok false tag attrs kids hcl _ rw' m o1 hroot
       refine ⟨r1, fun t => ?_⟩
       rw [r2 t, ← hkids, ← o3 t]
       simp [headPath, hsb0]
@@ -679,13 +692,117 @@ theorem simple_marks (hok : FragsOk frags) (tag : QName) (attrs : AttrList) (kid
       have hroot := pStep_skip_root ns frags 0 (.start tag attrs) rfl rfl hsk (by simp [h0, hsb0'])
       have hd : decide (0 > 0) = false := by decide
       rw [hd] at hroot
-      obtain ⟨r1, r2⟩ := rootRun ns xvs frags hok tag attrs kids hcl ⟨some (0, 0), false⟩ [] false
+      obtain ⟨r1, r2⟩ := rootRun ns xvs frags hok false tag attrs kids hcl ⟨some (0, 0), false⟩ [] false
         ⟨rfl, f0, h0, hpos⟩ hroot
       refine ⟨r1, fun t => ?_⟩
       rw [r2 t]
       simp only [headPath, hsb0', Bool.false_eq_true, if_false, hgG, false_and, false_or, ESem]
       rw [reach_chain_cons, hkids]
       simp only [List.any_eq_true, h0, Option.some.injEq, exists_eq_left', hgG, List.drop_zero]
+
+/-- the path a fragment list matches as a PATTERN: its first step taken on the
+    descendant-or-self axis from the root -/
+def patPath : List Frag → LocPath
+  | [] => []
+  | f0 :: fs =>
+      if f0.tests = [] then
+        (match fs with
+         | [] => []
+         | f1 :: fs' => fragPath .descendantOrSelf f1.tests ++ tailPath fs')
+      else fragPath .descendantOrSelf f0.tests ++ tailPath fs
+
+/-- **SimplePathStrategy as a pattern** (`ignore_context = True`, match templates): `True`
+    exactly at the nodes `descendant-or-self::first/rest` selects from the root -/
+theorem simple_marks_pattern (hok : FragsOk frags) (tag : QName) (attrs : AttrList) (kids : List Node)
+    (hcl : cleanList kids = true) :
+    okVals (runOne (pStep (some frags) true ns) [] (Node.elem tag attrs kids).flatten).1
+        (eventLocs (.elem tag attrs kids) []) ∧
+    ∀ t : LNode, selB (runOne (pStep (some frags) true ns) [] (Node.elem tag attrs kids).flatten).1
+        (eventLocs (.elem tag attrs kids) []) t.loc = true ↔
+      reach ns xvs (patPath frags) ⟨[], .elem tag attrs kids⟩ t = true := by
+  obtain ⟨f0, h0, hhead⟩ := hok.head
+  have hsk := skipEmpty_val frags hok f0 h0
+  have hclr : (⟨[], .elem tag attrs kids⟩ : LNode).node.clean = true := by simpa [Node.clean] using hcl
+  have hkids : childrenOf ⟨[], .elem tag attrs kids⟩ = kidsAt kids [] 0 := rfl
+  by_cases hemp : f0.tests = []
+  · obtain ⟨hsb0, h2⟩ := hhead hemp
+    rw [if_pos hemp] at hsk
+    obtain ⟨f1, hf1⟩ : ∃ f1, frags[1]? = some f1 := ⟨frags[1], List.getElem?_eq_getElem (by omega)⟩
+    have hne1 := hok.tail 0 f1 hf1
+    have hpat : patPath frags = fragPath .descendantOrSelf f1.tests ++ restPath frags (1 + 1) := by
+      cases frags with
+      | nil => simp at h0
+      | cons a fs =>
+        simp at h0; subst h0
+        cases fs with
+        | nil => simp at h2
+        | cons b fs' => simp at hf1; subst hf1; simp [patPath, hemp, restPath]
+    obtain ⟨rw', m, o1, o2, o3⟩ :=
+      icOut_sem ns xvs frags hok ⟨[], .elem tag attrs kids⟩ hclr 1 0 [] f1 hf1 hne1 (isMax_nil ns f1.tests)
+    have hroot := pStep_ic_root_pat ns frags 1 (.start tag attrs) rfl rfl hsk
+    simp only [nodeEvent] at o1 o2 o3
+    rw [o2] at hroot
+    simp only [Event.isStart, if_true] at hroot
+    obtain ⟨r1, r2⟩ := rootRun ns xvs frags hok true tag attrs kids hcl _ rw' m o1 hroot
+    refine ⟨r1, fun t => ?_⟩
+    rw [r2 t, ← hkids, ← o3 t, semIc_nil, hpat]
+  · rw [if_neg hemp] at hsk
+    have hpat : patPath frags = fragPath .descendantOrSelf f0.tests ++ restPath frags (0 + 1) := by
+      cases frags with
+      | nil => simp at h0
+      | cons a fs => simp at h0; subst h0; simp [patPath, hemp, restPath]
+    obtain ⟨rw', m, o1, o2, o3⟩ :=
+      icOut_sem ns xvs frags hok ⟨[], .elem tag attrs kids⟩ hclr 0 0 [] f0 h0 hemp (isMax_nil ns f0.tests)
+    have hroot := pStep_ic_root_pat ns frags 0 (.start tag attrs) rfl rfl hsk
+    simp only [nodeEvent] at o1 o2 o3
+    rw [o2] at hroot
+    simp only [Event.isStart, if_true] at hroot
+    obtain ⟨r1, r2⟩ := rootRun ns xvs frags hok true tag attrs kids hcl _ rw' m o1 hroot
+    refine ⟨r1, fun t => ?_⟩
+    rw [r2 t, ← hkids, ← o3 t, semIc_nil, hpat]
+
+/-- GenericStrategy's step list in pattern mode is that path -/
+theorem gSteps_pattern (hok : FragsOk frags) : gSteps (normPath frags) true = patPath frags := by
+  obtain ⟨f0, h0, hhead⟩ := hok.head
+  cases frags with
+  | nil => simp at h0
+  | cons a fs =>
+    simp at h0; subst h0
+    by_cases hemp : a.tests = []
+    · obtain ⟨hsb0, h2⟩ := hhead hemp
+      cases fs with
+      | nil => simp at h2
+      | cons f1 fs' =>
+        have hne1 := hok.tail 0 f1 rfl
+        have hs1 := hok.simple f1 (by simp)
+        cases hts : f1.tests with
+        | nil => exact absurd hts hne1
+        | cons g G =>
+          have hg := hs1 g (by simp [hts])
+          have hsd : ∀ (ax : Axis) (r : LocPath), stripDot (⟨ax, g, []⟩ :: r) = ⟨ax, g, []⟩ :: r := by
+            intro ax r
+            cases r with
+            | nil => rfl
+            | cons x xs =>
+              rcases simpleT_cases g hg with ⟨n, rfl⟩ | rfl | rfl <;> simp [stripDot]
+          simp only [normPath, headPath, hsb0, hemp, patPath, tailPath, fragSteps, hts, fragPath, childChain,
+            List.map_nil, List.nil_append, List.cons_append, Bool.false_eq_true, if_false, if_true]
+          split <;> simp [gSteps, hsd]
+    · have hs0 := hok.simple a (by simp)
+      cases hts : a.tests with
+      | nil => exact absurd hts hemp
+      | cons g G =>
+        have hg := hs0 g (by simp [hts])
+        have hsd : ∀ (ax : Axis) (r : LocPath), stripDot (⟨ax, g, []⟩ :: r) = ⟨ax, g, []⟩ :: r := by
+          intro ax r
+          cases r with
+          | nil => rfl
+          | cons x xs =>
+            rcases simpleT_cases g hg with ⟨n, rfl⟩ | rfl | rfl <;> simp [stripDot]
+        have hne : (g :: G = []) = False := by simp
+        simp only [normPath, headPath, patPath, hts, hne, if_false, fragPath, childChain, List.map_cons,
+          List.cons_append]
+        split <;> simp [gSteps, hsd]
 
 end
 
@@ -831,6 +948,67 @@ theorem stepsOk_normPath (ns : NsMap) (vs : Vars) (frags : List Frag) (hok : Fra
     rw [(mem_normPath frags s hs).2.2] at hq; simp at hq
   · intro s hs q hq
     rw [(mem_normPath frags s hs).2.2] at hq; simp at hq
+
+theorem mem_patPath (frags : List Frag) (s : Step) (hs : s ∈ patPath frags) :
+    s.axis ≠ .attribute ∧ (∃ f ∈ frags, s.test ∈ f.tests) ∧ s.preds = [] := by
+  have hfp : ∀ (f : Frag), s ∈ fragPath .descendantOrSelf f.tests →
+      s.axis ≠ .attribute ∧ s.test ∈ f.tests ∧ s.preds = [] := by
+    intro f h
+    obtain ⟨h1, h2, h3⟩ := mem_fragPath _ _ s h
+    refine ⟨?_, h2, h3⟩
+    rcases h1 with h | h <;> rw [h] <;> simp
+  cases frags with
+  | nil => simp [patPath] at hs
+  | cons f0 fs =>
+    simp only [patPath] at hs
+    split at hs
+    · cases fs with
+      | nil => simp at hs
+      | cons f1 fs' =>
+        simp only [List.mem_append] at hs
+        rcases hs with hs | hs
+        · obtain ⟨h1, h2, h3⟩ := hfp f1 hs
+          exact ⟨h1, ⟨f1, by simp, h2⟩, h3⟩
+        · obtain ⟨h1, ⟨f', hf', h2⟩, h3⟩ := mem_tailPath fs' s hs
+          exact ⟨h1, ⟨f', by simp [hf'], h2⟩, h3⟩
+    · simp only [List.mem_append] at hs
+      rcases hs with hs | hs
+      · obtain ⟨h1, h2, h3⟩ := hfp f0 hs
+        exact ⟨h1, ⟨f0, by simp, h2⟩, h3⟩
+      · obtain ⟨h1, ⟨f', hf', h2⟩, h3⟩ := mem_tailPath fs s hs
+        exact ⟨h1, ⟨f', by simp [hf'], h2⟩, h3⟩
+
+theorem patPath_head (frags : List Frag) (hok : FragsOk frags) :
+    ∃ g r, patPath frags = ⟨.descendantOrSelf, g, []⟩ :: r := by
+  obtain ⟨f0, h0, hhead⟩ := hok.head
+  cases frags with
+  | nil => simp at h0
+  | cons a fs =>
+    simp at h0; subst h0
+    by_cases hemp : a.tests = []
+    · obtain ⟨_, h2⟩ := hhead hemp
+      cases fs with
+      | nil => simp at h2
+      | cons f1 fs' =>
+        have hne1 := hok.tail 0 f1 rfl
+        cases hts : f1.tests with
+        | nil => exact absurd hts hne1
+        | cons g G => exact ⟨g, _, by simp [patPath, hemp, hts, fragPath]; rfl⟩
+    · cases hts : a.tests with
+      | nil => exact absurd hts hemp
+      | cons g G => exact ⟨g, _, by simp [patPath, hts, fragPath]; rfl⟩
+
+theorem stepsOk_patPath (ns : NsMap) (vs : Vars) (frags : List Frag) (hok : FragsOk frags) :
+    StepsOk ns vs (patPath frags) := by
+  obtain ⟨g, r, hgr⟩ := patPath_head frags hok
+  refine ⟨by rw [hgr]; simp, fun s hs => (mem_patPath frags s hs).1, ?_, ?_, ?_⟩
+  · intro s hs
+    obtain ⟨_, ⟨f, hf, ht⟩, _⟩ := mem_patPath frags s hs
+    rcases simpleT_cases s.test (hok.simple f hf _ ht) with ⟨n, h⟩ | h | h <;> rw [h] <;> simp [NodeTest.elemWf]
+  · intro s hs q hq
+    rw [(mem_patPath frags s hs).2.2] at hq; simp at hq
+  · intro s hs q hq
+    rw [(mem_patPath frags s hs).2.2] at hq; simp at hq
 
 theorem runTest_simpleL (frags : Option (List Frag)) (ic : Bool) (ns : NsMap) (vs : Vars) (t : PState)
     (es : List Event) :
